@@ -19,6 +19,7 @@ SUBMISSIONS = {
     "typeerr": "print('a' + 1)\n",
     "keyerr": "d = {'a': 1}\nprint(d['b'])\n",
     "syntax": "def f(:\n  pass\n",
+    "indent": "x = 1\n    y = 2\nprint(x)\n",
     "unused": "x = 0\ny = 5\nprint('hi')\n",
     "empty": "",
     "input": "n = input('n?')\nprint(int(n) + 1)\n",
@@ -112,6 +113,9 @@ FRAGMENTS = [
     # the same field of the same class overridden TWICE in one grading (a course prelude, then the problem script):
     # the backup must stay the ORIGINAL value
     ("ov_twice", "from pedal.tifa.feedbacks import unused_variable\nunused_variable.override(title='OV-FIRST')\nunused_variable.override(title='OV-SECOND')\ngently.override(title='OV-G1')\ngently.override(title='OV-G2', priority='low')\n"),
+    # two DIFFERENT feedback classes that share one __name__ (the static and the runtime indentation_error): each
+    # must get its own backup / restore
+    ("ov_same_name", "from pedal.source.feedbacks import indentation_error as static_ie\nfrom pedal.sandbox.feedbacks import indentation_error as runtime_ie\nstatic_ie.override(title='OV-STATIC-INDENT')\nruntime_ie.override(title='OV-RUNTIME-INDENT')\n"),
     ("ov_twice_none", "Feedback.override(priority='high')\nFeedback.override(priority='low')\n"),
     ("ov_correct", "from pedal.resolvers.feedbacks import set_correct_no_errors\nset_correct_no_errors.override(title='OV-DONE', message='all good')\n"),
     # pools (seeded: an unseeded A/B choice depends on the interpreter's random state by design)
@@ -215,6 +219,7 @@ CORPUS = [
     ("pools-then-plain", [G(["pools", "gently"], "ok"), G(["gently"], "ok")]),
     ("pools-one-then-error", [G(["pools_one"], "ok"), G(["nothing"], "zerodiv")]),
     ("override-half-failed", [G(["ov_bad"], "ok"), G(["gently"], "ok")]),
+    ("override-same-name-classes", [G(["ov_same_name"], "ok"), G(["nothing"], "indent"), G(["gently"], "indent")]),
     ("override-twice-then-plain", [G(["ov_twice"], "unused"), G(["gently"], "unused")]),
     ("override-none-twice-then-plain", [G(["ov_twice_none", "gently"], "ok"), G(["gently", "explain"], "ok")]),
     ("crash-after-override", [G(["ov_gently", "ov_tifa", "crash_zero"], "unused"), G(["gently"], "unused")]),
